@@ -620,6 +620,8 @@ func (g *gen) generate(n int) {
 		g.generateSeq(rep)
 		// round 6: math.Pow special cases on every code path that computes a power
 		g.generatePowStrata(rep)
+		// round 7: pairs of infinities for LogAdd/LogSub on every receiver; integer Pow with negative exponents and non-integral float bases
+		g.generateR7Strata(rep)
 	}
 }
 
